@@ -171,6 +171,26 @@ CURATED: Dict[str, Spec] = {
         )),
         ("O", A()),
     ),
+    # history parents that are NOT on the initial path (never-visited case)
+    "CUR12": C(
+        ("O", A()),
+        ("W", C(
+            ("s1", A()),
+            ("s2", C(("p", A()), ("q", A()))),
+            ("h", HS()),
+            ("hd", HD()),
+            ("hx", HS("s2")),
+        )),
+    ),
+    "CUR13": C(
+        ("O", A()),
+        ("P", P(
+            ("R1", C(("a", A()), ("b", A()))),
+            ("R2", C(("c", A()), ("d", C(("d1", A()), ("d2", A()))))),
+            ("hs", HS()),
+            ("hd", HD()),
+        )),
+    ),
     "CUR9": C(
         ("W", C(
             ("s1", A()),
